@@ -631,6 +631,79 @@ func c03foreignFor(r *vf.Rand, orig byte, bech32 bool) byte {
 	}
 }
 
+// --- stream: nested addresses.  A valid 256-bit address whose payload BEGINS
+// with a complete valid 160-bit address (payload and checksum) of the same
+// prefix and type; two substitutions - the size bits in symbol 1 and ANY byte
+// at the position where the short address ends - give a string that a decoder
+// accepts if it stops reading at that byte (a URI "?" or "#", a space, NUL, a
+// control character ...).  The statement requires every such string to be
+// rejected; every byte value is tried.
+
+func c03nestedCase(c *vf.Ctx, i int) {
+	net := allNets[i%len(allNets)]
+	slp := (i/len(allNets))%2 == 1 && net.P.SlpAddressPrefix != ""
+	prefix := net.P.CashAddressPrefix
+	if slp {
+		prefix = net.P.SlpAddressPrefix
+	}
+	typ := (i / (2 * len(allNets))) % 2 // 0 P2PKH, 1 P2SH
+	short := ref.CashEncode(prefix, typ, c.R.Bytes(20))
+	ssym := make([]byte, len(short))
+	for j := range ssym {
+		ssym[j] = byte(strings.IndexByte(ref.CashCharset, short[j]))
+	}
+	if len(ssym) != 42 {
+		panic("harness: 160-bit CashAddr payload is not 42 symbols")
+	}
+	long := make([]byte, 53)
+	copy(long, ssym)
+	long[1] = 3<<2 | ssym[1]&3 // size bits 011: 256-bit hash
+	for j := 42; j < 53; j++ {
+		long[j] = byte(c.R.Intn(32))
+	}
+	long[52] &^= 1 // the padding bit
+	raw, err := ref.Unpack5to8(long)
+	if err != nil || len(raw) != 33 {
+		c.Inconclusive("nested-construction-failed")
+		return
+	}
+	valid := ref.CashEncode(prefix, typ, raw[1:])
+	if len(valid) != 61 || valid[0] != short[0] || valid[2:42] != short[2:42] {
+		panic("harness: nested address construction is inconsistent")
+	}
+	orig := prefix + ":" + valid
+	c.Nontrivial(vf.HashString(orig))
+	for cut := 0; cut < 256; cut++ {
+		b := byte(cut)
+		if b == ':' || strings.IndexByte(ref.CashCharset, b|0x20) >= 0 && (b|0x20 >= 'a' && b|0x20 <= 'z') || strings.IndexByte(ref.CashCharset, b) >= 0 {
+			continue // an alphabet symbol (either case) or the separator: other streams
+		}
+		for _, bare := range []bool{false, true} {
+			m := []byte(valid)
+			m[1] = short[1]
+			m[42] = b
+			s := string(m)
+			if !bare {
+				s = prefix + ":" + s
+			}
+			c.Evals(2)
+			var e1, e2 error
+			var a bchutil.Address
+			c.Call("DecodeAddress", func() string { return s }, func() { a, e1 = bchutil.DecodeAddress(s, net.P) })
+			if e1 == nil {
+				c.Failf("DecodeAddress/undetected-substitution", "weight-2 substitution accepted on %s: valid %q -> corrupted %q (symbol 1 and byte %#02x at the end of an embedded shorter address) decoded to %v", net.Name, orig, s, b, a)
+			}
+			if !bare {
+				c.Call("DecodeCashAddress", func() string { return s }, func() { _, _, e2 = bchutil.DecodeCashAddress(s) })
+				if e2 == nil {
+					c.Failf("DecodeCashAddress/undetected-substitution", "weight-2 substitution accepted: valid %q -> corrupted %q", orig, s)
+				}
+			}
+		}
+	}
+	c.Inc("nested_addresses_probed_with_every_cut_byte")
+}
+
 // --- stream: addresses with at most five letters in the payload, letters
 // upper-cased while the prefix stays lower case: a substitution of weight <= 5
 // (by characters of the other case) that leaves every symbol VALUE unchanged.
@@ -1181,6 +1254,7 @@ func init() {
 			{Name: "cashaddr-blackbox-w1-w2", N: func(t vf.Tier) int { return c03bbOffsets[len(c03bbOffsets)-1] }, Run: c03bbCase, Exhaustive: true},
 			{Name: "cashaddr-blackbox-seeded", N: func(t vf.Tier) int { return t.Sz(40000, 2000000) }, Run: c03randCase},
 			{Name: "cashaddr-few-letters-case", N: func(t vf.Tier) int { return t.Sz(600, 6000) }, Run: c03fewLettersCase},
+			{Name: "cashaddr-nested", N: func(t vf.Tier) int { return t.Sz(48, 480) }, Run: c03nestedCase},
 			{Name: "cashaddr-near-miss", N: func(t vf.Tier) int { return t.Sz(264, 264*4) }, Run: c03nearCase, Init: c03initNear},
 			{Name: "bech32-syndrome-map", N: func(t vf.Tier) int { return t.Sz(200, 2000) }, Run: c03b32mapCase, Init: c03b32init, Exhaustive: false},
 			{Name: "bech32-blackbox-w1-w2", N: func(t vf.Tier) int {
